@@ -118,13 +118,27 @@ func (e *env) checkXTS(src string, f func([]byte) (cipher.Block, error), key []b
 			e.fail("c13-panic:"+src, "xts panicked on a valid input (length a positive multiple of 16)", d(map[string]any{"panic": fmt.Sprint(r)}))
 		}
 	}()
-	c, err := xts.NewCipher(f, key)
+	// Every slice handed to the package is a private copy that is overwritten as soon as the call's
+	// result has been judged: the Cipher must not depend on the caller's key, source or destination
+	// memory after a call returns.
+	wipe := func(k int, bs ...[]byte) {
+		for _, b := range bs {
+			for i := range b {
+				b[i] = byte(0x5A*k + i*k)
+			}
+		}
+	}
+	keyc := append([]byte(nil), key...)
+	c, err := xts.NewCipher(f, keyc)
+	wipe(1, keyc)
 	if err != nil {
 		e.fail("c13-newcipher-error:"+src, "xts.NewCipher rejects a valid key", d(map[string]any{"err": err.Error()}))
 		return
 	}
 	n := len(pt)
 	orig := append([]byte(nil), pt...)
+	pt = append([]byte(nil), pt...) // private, wiped and refreshed between calls
+	refresh := func() { copy(pt, orig) }
 	// an unrelated call first: the tweak register is pooled and must not leak between calls
 	scratch := make([]byte, 48)
 	c.Encrypt(scratch, scratch, ^sector)
@@ -138,18 +152,23 @@ func (e *env) checkXTS(src string, f func([]byte) (cipher.Block, error), key []b
 	if !bytes.Equal(pt, orig) {
 		e.fail("c13-source-modified:"+src, "xts.Encrypt modified the plaintext buffer", d(nil))
 	}
+	wipe(2, dst, pt, scratch)
+	refresh()
 	// Encrypt, in place
 	buf := append([]byte(nil), pt...)
 	c.Encrypt(buf, buf, sector)
 	if i := firstDiff(buf, want); i >= 0 {
 		e.fail("c13-encrypt-inplace-mismatch:"+src, "in-place xts.Encrypt differs from the separate-buffer result", d(map[string]any{"got": hx(buf), "first_diff": i}))
 	}
+	wipe(3, buf)
 	// Encrypt into a longer destination (allowed: len(ciphertext) >= len(plaintext))
 	long := bytes.Repeat([]byte{0x5C}, n+16)
 	c.Encrypt(long, pt, sector)
 	if i := firstDiff(long[:n], want); i >= 0 {
 		e.fail("c13-encrypt-mismatch:"+src, "xts.Encrypt into a longer destination differs from IEEE 1619 XTS", d(map[string]any{"got": hx(long), "first_diff": i}))
 	}
+	wipe(0, long, pt)
+	refresh()
 	// Decrypt, separate buffers and in place
 	ctc := append([]byte(nil), want...)
 	back := bytes.Repeat([]byte{0x3B}, n)
@@ -160,9 +179,17 @@ func (e *env) checkXTS(src string, f func([]byte) (cipher.Block, error), key []b
 	if !bytes.Equal(ctc, want) {
 		e.fail("c13-source-modified:"+src, "xts.Decrypt modified the ciphertext buffer", d(nil))
 	}
+	wipe(4, back)
 	c.Decrypt(ctc, ctc, sector)
 	if i := firstDiff(ctc, orig); i >= 0 {
 		e.fail("c13-decrypt-inplace-mismatch:"+src, "in-place xts.Decrypt does not return the plaintext", d(map[string]any{"got": hx(ctc), "first_diff": i}))
+	}
+	wipe(5, ctc)
+	// after all that scribbling the first Cipher still encrypts correctly
+	dst2 := make([]byte, n)
+	c.Encrypt(dst2, pt, sector)
+	if i := firstDiff(dst2, want); i >= 0 {
+		e.fail("c13-encrypt-mismatch:"+src, "xts.Encrypt differs from IEEE 1619 XTS after the caller overwrote buffers of earlier calls", d(map[string]any{"got": hx(dst2), "first_diff": i}))
 	}
 	// a fresh Cipher object gives the same result (no hidden state in the first one)
 	c2, _ := xts.NewCipher(f, key)
